@@ -17,6 +17,10 @@ def plan(tier, seed):
         js += C10.capacity_jobs(tier, seed, prop="C12")
     except ImportError:
         pass
+    # the packer reads size and payload through unchecked macros: anything but a bytes object must be refused first
+    from .e2 import ch
+    js.append(ch("C12", "vf/pyshim/h_labels.py", "h_required_null_refused", 60 if tier == "quick" else 200,
+                 ["speedups.pack_byte_array (item type check, compiled)", "writer.encode_plain"]))
     extra = dict(
         explanation="Bounded symbolic model checking of the LLVM IR of the generated C: every load, store and memcpy "
                     "carries the obligation 'inside the region it addresses', every shift 'amount < width', every "
@@ -35,7 +39,7 @@ def plan(tier, seed):
 def post(results, tier, seed):
     for r in results:
         fs = [f for f in r.get("findings", []) if f.get("kind") in SAFETY or
-              str(f.get("cls", "")).startswith(("C10:", "lemma:buffer")) or
+              str(f.get("cls", "")).startswith(("C10:", "lemma:buffer", "C12:h_required_null_refused")) or
               # the lifted BYTE_ARRAY codec: a pointer dereference outside its region surfaces as CapacityViolation
               (str(f.get("cls", "")).startswith(("C12:h_unpack", "C12:h_pack")) and
                "CapacityViolation" in str(f.get("detail", "")))]
